@@ -8,6 +8,8 @@
     op remove <id>                  => ok | notfound | vecnotfound | vecdeleted | closed
     op flush | rotate | evict | trigger => ok | closed
     op badadd <vdim> <tlen> <mcnt>  => err | closed      an add the store must reject
+    op osearch <vec|vt> k=<k> turns=… loads=<n> exactix=<0|1> commute=<0|1> [thr=1 agg=… cut=… np=… ef=… fusion[kind]=…]
+                                    => ok <store ids> ref <reference ids>   (predicate refeq, see the op)
     op search <vec|txt|md|mdg|mdgf> k=<k> turns=<t,…|-> loads=<n> => ok <id,…|-> | err <closed|noindex|other>
          turns: what each segment goroutine did, in the (serialised) order they ran:
          h = cache hit, l<id> = loaded segment <id>, f<id> = ReadFrom of segment <id> failed,
@@ -417,6 +419,69 @@ def op (st : St) (toks : List String) : St × String :=
             | e => (st, s!"DIFF search model={outName e} impl=ok")
       | _ => (st, "BADOP search outcome")
     | _, _, _, _ => (st, "BADOP search args")
+  | "osearch" :: mode :: args =>
+    -- a probe with search options (threshold / aggregation / autocut / nprobes / efSearch / fusion /
+    -- k exactly large enough), answered by the store and by the REFERENCE in-memory hybrid index
+    -- that was fed the same acknowledged adds and removes. The model has no scores: it replays the
+    -- schedule (state, loads), supplies the match sets, and decides when the property promises
+    -- equality of the two id sets.
+    let isVT := mode == "vt"
+    match kvOf "turns" args, (kvOf "loads" args), (kvOf "k" args).bind String.toNat?,
+          (kvOf "exactix" args), (kvOf "commute" args) with
+    | some turns, some loads, some k, some exactix, some commute =>
+      let tl := if turns == "-" then [] else turns.splitOn ","
+      let refIds? : Option (List Nat) := match post.dropWhile (· != "ref") with
+        | ["ref", x] => if x == "err" then none else parseIds x
+        | _ => none
+      match post with
+      | "err" :: e :: _ => (st, s!"SPECFAIL search-error impl=err:{e} on an option probe")
+      | "ok" :: x :: _ =>
+        match parseIds x, refIds? with
+        | some implIds, some refIds =>
+          let impl := sortIds implIds
+          let ref := sortIds refIds
+          let acked := st.s.gh.acked.map (·.id)
+          match impl.find? (fun i => !acked.contains i) with
+          | some i => (st, s!"SPECFAIL phantom id={i} impl={showIds impl}")
+          | none =>
+          if tl.length != st.s.segs.length then
+            (st, s!"DIFF osearch turns={tl.length} model-segments={st.s.segs.length}") else
+          match resolveTurns st.cfg st.s tl with
+          | .error e => (st, s!"DIFF osearch schedule: {e}")
+          | .ok sched =>
+            let (s', ov, nl) := execSearch st.s .vec sched
+            let mv := match ov with | .ids m => sortIds m | _ => []
+            let mt := if isVT then (match (execSearch st.s .txt sched).2.1 with | .ids m => sortIds m | _ => []) else []
+            let st' := { st with s := s' }
+            if toString nl != loads then (st', s!"DIFF osearch loads model={nl} impl={loads}") else
+            if decide (k < impl.length) then (st', s!"SPECFAIL size k={k} but {impl.length} ids returned") else
+            match impl.find? (fun i => !(mv.contains i || mt.contains i)) with
+            | some i => (st', s!"DIFF osearch returned id={i} outside the model's matches vec={showIds mv} txt={showIds mt}")
+            | none =>
+              -- the documents a single in-memory index holding the live documents has
+              let live := st'.s.gh.acked.filter fun d => !st'.s.gh.removed.contains d.id
+              let lv := sortIds ((live.filter (Doc.has · st.cfg.tpl .vec)).map (·.id))
+              let lt := sortIds ((live.filter (Doc.has · st.cfg.tpl .txt)).map (·.id))
+              -- equality is promised when the vector index is exact, the store (per the faithful
+              -- model, i.e. no known finding has struck) presents exactly the live documents, and
+              -- either every source saw the same content (no load during this search) or the
+              -- options act per document (threshold, aggregation, nprobes — not autocut, not fusion)
+              let same := mv == lv && (!isVT || mt == lt)
+              -- vector+text: hybridSearch.Execute truncates EACH modality's list to k before fusing, and
+              -- which of several equally scored hits survive that truncation is not determined (Go map
+              -- order, unstable sort): two identical in-memory indexes then return different id SETS
+              -- (min fusion, tied BM25 scores; reproduced 162 : 38 over 200 fresh instances). The set is
+              -- determined only when k cannot truncate any modality's list; below that the reference is
+              -- one of several valid answers and equality with it is more than the property states.
+              let vtDetermined := !isVT || decide (((mv ++ mt).eraseDups).length ≤ k)
+              let promised := exactix == "1" && same && (commute == "1" || nl == 0) && vtDetermined
+              if promised then
+                if impl == ref then (st', s!"ok refeq=1 n={impl.length} vt={if isVT then 1 else 0} segs={tl.length} loads={nl}")
+                else (st', s!"SPECFAIL refeq store={showIds impl} reference={showIds ref} (same live documents, options {args})")
+              else (st', s!"ok sanity=1 n={impl.length} same={if same then 1 else 0} vtsmallk={if vtDetermined then 0 else 1}")
+        | _, _ => (st, "BADOP osearch ids")
+      | _ => (st, "BADOP osearch outcome")
+    | _, _, _, _, _ => (st, "BADOP osearch args")
   | ["state"] =>
     let m := showState st.s
     let i := " ".intercalate post
